@@ -33,16 +33,26 @@ UNIQ = 'rows'
 RULE = ('random: x, y with 1-4 features and 1-200 rows each from the families {gauss, integer grid, duplicated rows, shuffled linspace, '
         'clusters}, rows shuffled, K in 1..15 (also K > ny), distance bound in {inf, moderate, tight} (quantiles of the true nearest-neighbour '
         'distances), 1-feature inputs passed both as (n,) and (n,1); exhaustive: every pair of 1-D point sets over the grid {0,1,2,3} with '
-        'nx, ny <= 3 (quick) / nx + ny <= 7 (thorough) x K in 1..3(4) x bound in {inf, 1.5, 0.5}; malformed: K = 0, feature-count mismatch. '
+        'nx, ny <= 3 (quick) / nx + ny <= 7 (thorough) x K in 1..3(4) x bound in {inf, 1.5, 0.5}. '
+        '30 % of the random cases mix dtypes (one set int64 with integer-valued features or float32, the other float64 with fractional '
+        'parts); 2 (quick) / 8 (thorough) random cases have 1030-2600 rows in x (beyond the quantifier\'s 200: the statement has no size limit). '
+        'x and y are handed over as writable copies (a change is the mechanism-level kind input-modified); the pairing is compared with the '
+        'model as a set of pairs; time-outs are skipped and tagged. '
+        'Outside the quantifier, recorded only: K = 0, feature-count mismatch (stream kdt_malformed, nothing demanded). '
         'Non-trivial: at least one row of x is matched and at least one is omitted.')
 
 
 # --------------------------------------------------------------------------------------------
 # calling the implementation and the oracle
 
+DTYPES = {'f8': np.float64, 'i8': np.int64, 'f4': np.float32}
+
+
 def _arrays(case):
-    x = np.array(case['x'], dtype=float)
-    y = np.array(case['y'], dtype=float)
+    """x, y as handed to kdt_match: float64 unless the case names another dtype for one of them ('xd' / 'yd': int64 for
+    integer-valued features such as durations in samples, float32); the stored values are exactly representable there"""
+    x = np.array(case['x'], dtype=float).astype(DTYPES[case.get('xd', 'f8')])
+    y = np.array(case['y'], dtype=float).astype(DTYPES[case.get('yd', 'f8')])
     if case.get('flat'):
         x, y = x[:, 0], y[:, 0]
     return x, y
@@ -55,8 +65,8 @@ def _bound(case):
 def query(x, y, K, bound):
     """The oracle table: the real KD-tree query, as an (nx, K) pair of nested lists (inf -> -1)."""
     from scipy import spatial
-    x2 = x[:, None] if x.ndim == 1 else x
-    y2 = y[:, None] if y.ndim == 1 else y
+    x2 = np.asarray(x[:, None] if x.ndim == 1 else x, dtype=float)     # the true points, whatever dtype they came in
+    y2 = np.asarray(y[:, None] if y.ndim == 1 else y, dtype=float)
     D, inds = spatial.cKDTree(y2).query(x2, k=K, distance_upper_bound=bound)
     D = np.asarray(D, dtype=float).reshape(x2.shape[0], -1)
     inds = np.asarray(inds).reshape(x2.shape[0], -1)
@@ -65,21 +75,22 @@ def query(x, y, K, bound):
 
 
 def run_match(x, y, K, bound):
+    """the real call, on writable copies (the property does not speak about read-only buffers)"""
     import emd
-    x.setflags(write=False)
-    y.setflags(write=False)
+    xc, yc = x.copy(), y.copy()
     kw = {}
     if bound is not None and not math.isinf(bound):
         kw['distance_upper_bound'] = bound
-    xi, yi = emd.cycles.kdt_match(x, y, K=K, **kw)
-    return [int(v) for v in np.asarray(xi).ravel()], [int(v) for v in np.asarray(yi).ravel()]
+    xi, yi = emd.cycles.kdt_match(xc, yc, K=K, **kw)
+    mutated = not (np.array_equal(xc, x) and np.array_equal(yc, y))
+    return [int(v) for v in np.asarray(xi).ravel()], [int(v) for v in np.asarray(yi).ravel()], mutated
 
 
 def call(x, y, K, bound):
     D, inds = query(x, y, K, bound)
     out = {'D': D, 'inds': inds}
     try:
-        out['x_inds'], out['y_inds'] = run_match(x, y, K, bound)
+        out['x_inds'], out['y_inds'], out['mutated'] = run_match(x, y, K, bound)
     except Exception as e:  # noqa
         out['error'] = type(e).__name__
         out['msg'] = str(e)[:200]
@@ -101,7 +112,7 @@ def compare_one(out, r):
         return 'assumption kdquery_wellformed violated by the real cKDTree.query result: D=%s inds=%s' % (out['D'][:4], out['inds'][:4])
     mx = [int(v) for v in (r.vecs[0] or [])]
     my = [int(v) for v in (r.vecs[1] or [])]
-    if mx != out['x_inds'] or my != out['y_inds']:
+    if sorted(zip(mx, my)) != sorted(zip(out['x_inds'], out['y_inds'])) or len(mx) != len(out['x_inds']):     # the pairing, not its order
         return 'impl x=%s y=%s model x=%s y=%s' % (out['x_inds'][:30], out['y_inds'][:30], mx[:30], my[:30])
     return None
 
@@ -112,11 +123,13 @@ def compare_one(out, r):
 def pairing_failures(x, y, K, bound, out):
     if 'error' in out:
         return [Failure('raises:' + out['error'], out.get('msg', ''))]
-    x2 = x[:, None] if x.ndim == 1 else x
-    y2 = y[:, None] if y.ndim == 1 else y
+    x2 = np.asarray(x[:, None] if x.ndim == 1 else x, dtype=float)
+    y2 = np.asarray(y[:, None] if y.ndim == 1 else y, dtype=float)
     nx, ny = x2.shape[0], y2.shape[0]
     xi, yi = out['x_inds'], out['y_inds']
     fs = []
+    if out.get('mutated'):      # side effects on the arguments are C19's subject: mechanism-level here
+        fs.append(Failure('input-modified', 'kdt_match changed x or y in place', literal=False))
     if len(xi) != len(yi):
         return [Failure('length-mismatch', '%d x indices, %d y indices' % (len(xi), len(yi)))]
     if len(set(xi)) != len(xi):
@@ -128,7 +141,7 @@ def pairing_failures(x, y, K, bound, out):
         fs.append(Failure('x-out-of-range', 'x_inds=%s nx=%d' % (xi[:40], nx)))
     if any(not (0 <= v < ny) for v in yi):
         fs.append(Failure('y-out-of-range', 'y_inds=%s ny=%d' % (yi[:40], ny)))
-    if fs:
+    if any(f.literal for f in fs):
         return fs
     for i, j in zip(xi, yi):
         d = np.sqrt(((y2 - x2[i]) ** 2).sum(axis=1))
@@ -142,7 +155,35 @@ def pairing_failures(x, y, K, bound, out):
         if dij > bound * (1 + 1e-12):
             fs.append(Failure('pair-beyond-bound', 'pair (%d,%d) is %r apart, bound %r' % (i, j, dij, bound)))
             break
-    return fs + greedy_failures(out, ny)
+    return fs + omitted_failures(x2, y2, K, bound, xi) + greedy_failures(out, ny)
+
+
+def omitted_failures(x2, y2, K, bound, xi):
+    """ "Rows without a unique admissible neighbour are simply omitted" - so a row WITH one is not. Judged only where no
+    reading of 'unique admissible' can disagree: row i of x whose single nearest row j of y is within the bound and is
+    not among the K nearest-within-the-bound of ANY other row of x (nobody else can claim j) must appear in the pairing.
+    Ties and distances at the bound / at the K-th neighbour are resolved against the demand (brute force, true distances)."""
+    nx, ny = x2.shape[0], y2.shape[0]
+    if nx * ny > 12_000_000:
+        return []
+    DM = np.sqrt(((x2[:, None, :] - y2[None, :, :]) ** 2).sum(axis=2))
+    srt = np.sort(DM, axis=1)
+    kth = srt[:, min(K, ny) - 1]
+    may_claim = (DM <= kth[:, None] * (1 + 1e-9) + 1e-300) & (DM <= bound * (1 + 1e-9))
+    claimants = may_claim.sum(axis=0)
+    matched = set(xi)
+    for i in range(nx):
+        j = int(np.argmin(DM[i]))
+        d = DM[i, j]
+        if ny > 1 and not (srt[i, 1] > d * (1 + 1e-9) + 1e-300):
+            continue                                   # nearest neighbour tied
+        if not (d <= bound * (1 - 1e-9)) or not (d < np.inf):
+            continue
+        if claimants[j] == 1 and may_claim[i, j] and i not in matched:
+            return [Failure('uncontested-nearest-neighbour-omitted',
+                            'row %d of x: its nearest row %d of y is %r away (bound %r) and is not among the %d nearest of any '
+                            'other row of x, yet row %d is not in the pairing (%d pairs)' % (i, j, float(d), bound, K, i, len(xi)))]
+    return []
 
 
 def greedy_failures(out, ny):
@@ -235,18 +276,33 @@ class Random(Stream):
             {'x': [[0.0, 0.0], [0.0, 0.0], [0.0, 0.0]], 'y': [[0.0, 0.0], [0.0, 0.0], [1.0, 1.0]], 'K': 3, 'bound': None,
              'flat': 0, 'family': 'corpus'},
             {'x': [[0.0]], 'y': [[0.0], [1.0], [2.0]], 'K': 3, 'bound': 1.0, 'flat': 0, 'family': 'corpus'},
+            # mixed dtypes: integer-valued y in an integer array, float x with fractional parts (x must not be truncated to y's dtype:
+            # 23.7 is nearest to 24, and 0.7 from 23 is beyond a bound of 0.5)
+            {'x': [[23.7], [5.2]], 'y': [[23.0], [24.0], [5.0]], 'K': 1, 'bound': None, 'flat': 0, 'family': 'corpus', 'yd': 'i8'},
+            {'x': [[23.7], [5.2]], 'y': [[23.0], [30.0], [5.0]], 'K': 2, 'bound': 0.5, 'flat': 1, 'family': 'corpus', 'yd': 'i8'},
+            {'x': [[3.0], [7.0]], 'y': [[2.6], [3.3], [7.4]], 'K': 1, 'bound': None, 'flat': 0, 'family': 'corpus', 'xd': 'i8'},
+            {'x': [[0.1234567891], [1.0]], 'y': [[0.125], [0.12345679104328156]], 'K': 1, 'bound': None, 'flat': 0,
+             'family': 'corpus', 'yd': 'f4'},
             # contested neighbours in later columns
             {'x': [[0.0], [0.1], [0.2], [0.3]], 'y': [[0.05], [1.0], [-1.0]], 'K': 3, 'bound': None, 'flat': 0, 'family': 'corpus'},
         ]
 
     def generate(self, rng, tier):
         n_cases = 1500 if tier == 'thorough' else 220
+        n_long = 8 if tier == 'thorough' else 2
         for i in range(n_cases):
             f = rng.randint(1, 4)
             big = rng.random() < (0.35 if tier == 'thorough' else 0.2)
             nx = rng.randint(1, 200) if big else rng.randint(1, 25)
             ny = rng.randint(1, 200) if big else rng.randint(1, 30)
             fam = rng.choice(FAMILIES)
+            if i < n_long:
+                # a few feature sets far longer than the quantifier's 200 rows (the statement itself has no size limit;
+                # an implementation that walks x in blocks must still give ONE one-to-one pairing)
+                f = rng.randint(1, 3)
+                nx = rng.randint(1030, 1500) if i % 2 == 0 else rng.randint(2050, 2600)
+                ny = rng.randint(200, 2500)
+                fam = rng.choice(['gauss', 'clusters', 'grid'])
             if fam == 'dup':
                 base = make_points(rng, rng.choice(['gauss', 'grid']), max(1, ny // 2), f)
                 y = [list(rng.choice(base)) for _ in range(ny)]
@@ -256,9 +312,31 @@ class Random(Stream):
                 x = make_points(rng, fam if rng.random() < 0.8 else 'gauss', nx, f)
             rng.shuffle(x)
             rng.shuffle(y)
+            dt = {}
+            if rng.random() < 0.3:
+                # mixed dtypes: one set holds integer-valued features in an integer array (durations in samples, counts)
+                # or float32 values, the other stays float64 with fractional parts
+                side, d = rng.choice([('yd', 'i8'), ('yd', 'i8'), ('xd', 'i8'), ('yd', 'f4'), ('xd', 'f4')])
+                dt[side] = d
+                if d == 'i8':
+                    sc = rng.choice([1, 3, 10])
+                    x = [[v * sc for v in r] for r in x]
+                    y = [[v * sc for v in r] for r in y]
+                    if side == 'yd':
+                        y = [[float(round(v)) for v in r] for r in y]
+                        if fam in ('grid', 'halfgrid', 'dup'):      # give the float side fractional parts
+                            x = [[v + rng.uniform(-0.49, 0.99) for v in r] for r in x]
+                    else:
+                        x = [[float(round(v)) for v in r] for r in x]
+                elif side == 'yd':
+                    y = [[float(np.float32(v)) for v in r] for r in y]
+                else:
+                    x = [[float(np.float32(v)) for v in r] for r in x]
             K = rng.randint(1, 15)
-            if rng.random() < 0.1:
-                K = rng.choice([1, 2, ny, ny + 1, 15])
+            if rng.random() < 0.1 or (dt and rng.random() < 0.4):
+                K = rng.choice([1, 2, ny, ny + 1, 15] if not dt else [1, 1, 2, 3])
+            if i < n_long:
+                K = rng.randint(1, 6)
             bk = rng.choice(['inf', 'moderate', 'tight'])
             if bk == 'inf':
                 bound = None
@@ -267,8 +345,8 @@ class Random(Stream):
                 bound = q * rng.choice([1.0, 1.5]) if bk == 'moderate' else rng.choice([q, q * 0.5, 0.25])
                 if not (bound > 0):
                     bound = 0.5
-            yield {'x': x, 'y': y, 'K': max(1, K), 'bound': bound, 'flat': int(f == 1 and rng.random() < 0.5), 'family': fam,
-                   'bk': bk}
+            yield dict({'x': x, 'y': y, 'K': max(1, K), 'bound': bound, 'flat': int(f == 1 and rng.random() < 0.5), 'family': fam,
+                        'bk': bk}, **dt)
 
     def impl(self, case):
         x, y = _arrays(case)
@@ -280,13 +358,15 @@ class Random(Stream):
         return [kdt_op(out, len(case['x']), len(case['y']), case['K'], _bound(case))]
 
     def compare(self, case, out, results):
+        if isinstance(out, ImplError) and out['error'] == 'Timeout':
+            return 'skip:time-out (termination is not this property\'s subject)'
         if isinstance(out, ImplError):
             return 'the KD-tree query itself raised %s (%s)' % (out['error'], out.get('msg', ''))
         return compare_one(out, results[0])
 
     def holds(self, case, out):
-        if isinstance(out, ImplError):
-            return [Failure('query-raises:' + out['error'], out.get('msg', ''))]
+        if isinstance(out, ImplError):      # the harness's own oracle query failed (or the case timed out): not the property's words
+            return [] if out['error'] == 'Timeout' else [Failure('query-raises:' + out['error'], out.get('msg', ''), literal=False)]
         x, y = _arrays(case)
         return pairing_failures(x, y, case['K'], _bound(case), out)
 
@@ -295,7 +375,10 @@ class Random(Stream):
         t = ['family=%s' % case.get('family'), 'features=%d' % len(case['x'][0]),
              'K=%s' % ('1' if K == 1 else '2-5' if K <= 5 else '6-15'),
              'bound=%s' % case.get('bk', 'inf' if case.get('bound') is None else 'finite'),
-             'rows=%s' % ('<=30' if max(nx, ny) <= 30 else '31-200')]
+             'rows=%s' % ('<=30' if max(nx, ny) <= 30 else '31-200' if max(nx, ny) <= 200 else '>200 (beyond the quantifier)'),
+             'dtypes=x:%s,y:%s' % (case.get('xd', 'f8'), case.get('yd', 'f8'))]
+        if isinstance(out, ImplError) and out['error'] == 'Timeout':
+            t.append('skipped:time-out')
         if K > ny:
             t.append('K>ny')
         if case.get('flat'):
@@ -374,6 +457,8 @@ class GridExhaustive(Stream):
         return [kdt_op(o, case['nx'], case['ny'], case['K'], b) for o in out]
 
     def compare(self, case, out, results):
+        if isinstance(out, ImplError) and out['error'] == 'Timeout':
+            return 'skip:time-out (termination is not this property\'s subject)'
         if isinstance(out, ImplError):
             return 'the KD-tree query itself raised %s (%s)' % (out['error'], out.get('msg', ''))
         for (xs, ys), o, r in zip(self._variants(case), out, results):
@@ -383,8 +468,8 @@ class GridExhaustive(Stream):
         return None
 
     def holds(self, case, out):
-        if isinstance(out, ImplError):
-            return [Failure('query-raises:' + out['error'], out.get('msg', ''))]
+        if isinstance(out, ImplError):      # the harness's own oracle query failed (or the case timed out): not the property's words
+            return [] if out['error'] == 'Timeout' else [Failure('query-raises:' + out['error'], out.get('msg', ''), literal=False)]
         b = GRID_BOUNDS[case['bi']]
         bound = np.inf if b is None else b
         fs = {}
@@ -402,7 +487,7 @@ class GridExhaustive(Stream):
 
 
 class Malformed(Stream):
-    """Inputs the query itself rejects: the only expected outcome is an error kind."""
+    """Inputs outside the quantifier (K = 0, feature-count mismatch): nothing is demanded, outcomes are recorded."""
     name = 'kdt_malformed'
     parallel = False
 
@@ -417,21 +502,17 @@ class Malformed(Stream):
         x = np.array(case['x'], dtype=float)
         y = np.array(case['y'], dtype=float)
         try:
-            xi, yi = run_match(x, y, case['K'], None)
+            xi, yi, _ = run_match(x, y, case['K'], None)
             return {'x_inds': xi, 'y_inds': yi}
         except Exception as e:  # noqa
             return {'error': type(e).__name__, 'msg': str(e)[:200]}
 
     def ops(self, case, out):
-        if case['what'] == 'K=0':
-            return [proto.op('KDT', {'uniq': UNIQ, 'nx': len(case['x']), 'ny': len(case['y']), 'k': 0, 'bound': 'inf'}, [[], []])]
         return []
 
     def compare(self, case, out, results):
-        if out.get('error') != 'ValueError':
-            return 'expected ValueError from the query, implementation gave %s' % (out,)
-        if case['what'] == 'K=0' and results[0].raw.strip() != 'err ValueError':
-            return 'model answered %s' % results[0].raw[:100]
+        # K = 0 and unequal feature counts are outside the quantifier (K = 1..15, two sets of the same features): any
+        # error, an empty pairing or anything else is acceptable; the outcome is recorded as a tag only
         return None
 
     def tags(self, case, out):
